@@ -448,6 +448,8 @@ func runC02(c *report.Ctx) {
 
 	// ---- API fee ceiling ------------------------------------------------------------------------
 	ruleFeeCeiling(c)
+	ruleFeeShareRoundsUp(c)
+	ruleChangeToFirstInput(c)
 }
 
 func typeStr(t types.Type) string {
